@@ -397,7 +397,7 @@ Qed.
 Lemma legacy_count_bound s x stt : -128 <= i_cnt x <= 127 ->
   -128 <= legacy_count s x stt <= 127 /\ legacy_count s x stt <= Z.max 1 (i_cnt x + 1).
 Proof.
-  intros H. unfold legacy_count. destruct (2000000 <=? u32 (now32 s - i_lsc x)); [lia|].
+  intros H. unfold legacy_count. destruct (CHAIN_WINDOW_US <=? u32 (now32 s - i_lsc x)); [lia|].
   destruct (counted_legacy x stt); [|lia].
   pose proof (s8_range (i_cnt x + 1)). pose proof (s8_le (i_cnt x + 1) ltac:(lia)). lia.
 Qed.
